@@ -245,6 +245,19 @@ func (s *TO0Server) acceptOwner(ctx context.Context, msg io.Reader) (*to0AcceptO
 	}
 
 	// Check owner sign nonce in to0d
+	ownerPub, err := ov.OwnerPublicKey()
+	if err != nil {
+		captureErr(ctx, protocol.InvalidMessageErrCode, "")
+		return nil, fmt.Errorf("error parsing voucher owner key: %w", err)
+	}
+	if ok, err := sig.To1d.Verify(ownerPub, nil, nil); err != nil {
+		captureErr(ctx, protocol.InvalidMessageErrCode, "")
+		return nil, fmt.Errorf("error verifying to1d signature: %w", err)
+	} else if !ok {
+		captureErr(ctx, protocol.InvalidMessageErrCode, "")
+		return nil, fmt.Errorf("%w: to1d was not signed by the voucher's owner key", ErrCryptoVerifyFailed)
+	}
+
 	signNonce, err := s.Session.TO0SignNonce(ctx)
 	if err != nil {
 		return nil, fmt.Errorf("error getting TO0 owner sign nonce: %w", err)
